@@ -70,6 +70,11 @@ impl VM {
     /// Reads a u16 value from the current position in the instructions array
     #[inline(always)]
     fn read_u8(&mut self) -> u8 {
+        #[cfg(feature = "verif")]
+        if self.ip >= self.instructions.len() {
+            crate::verif::fault("operand");
+            return 0;
+        }
         let v = unsafe { *self.instructions.get_unchecked(self.ip) };
         self.ip += 1;
         v
@@ -78,6 +83,11 @@ impl VM {
     /// Reads a u16 value from the current position in the instructions array
     #[inline(always)]
     fn read_u16(&mut self) -> u16 {
+        #[cfg(feature = "verif")]
+        if self.ip + 2 > self.instructions.len() {
+            crate::verif::fault("operand");
+            return 0;
+        }
         let start = self.ip;
         self.ip += 2;
         let bytes = unsafe { self.instructions.get_unchecked(start..self.ip) };
@@ -94,6 +104,11 @@ impl VM {
     /// This function still accounts for 25-35% of runtime right now...
     #[inline(always)]
     fn next(&mut self) -> OpCode {
+        #[cfg(feature = "verif")]
+        if self.ip >= self.instructions.len() || self.instructions[self.ip] > OpCode::Halt as u8 {
+            crate::verif::fault("fetch");
+            return OpCode::Halt;
+        }
         // Safety: if compiler did its job correctly, IP will always be in bounds
         // Performance: skipping the bounds check yields a 22% performance improvement
         let byte = unsafe { *self.instructions.get_unchecked(self.ip) };
@@ -106,6 +121,11 @@ impl VM {
     /// Performance: -25% over a regular call to `Vec::pop()`
     #[inline(always)]
     fn pop(&mut self) -> Object {
+        #[cfg(feature = "verif")]
+        if self.stack.is_empty() {
+            crate::verif::fault("pop");
+            return Object::null();
+        }
         debug_assert!(!self.stack.is_empty());
 
         // Safety: if the compiler and VM are implemented correctly, the stack will never be empty
@@ -126,6 +146,8 @@ impl VM {
     /// This also truncates the stack back to SP from when this frame was pushed
     #[inline(always)]
     fn popframe(&mut self) {
+        #[cfg(feature = "verif")]
+        crate::verif::on_return(self.frames.len(), self.bp as usize);
         // pop frame and return stack to frame's base pointer
         let frame = self.frames.pop().unwrap();
         self.stack.truncate(frame.base_pointer as usize);
@@ -248,6 +270,23 @@ impl VM {
                     println!("{} ", ">".repeat(40));
                     debug_pause -= 1;
                 }
+            }
+
+            #[cfg(feature = "verif")]
+            {
+                if let Some(site) = crate::verif::take_fault() {
+                    return Err(Error::Fault(site));
+                }
+                if crate::verif::tick() {
+                    return Err(Error::Budget);
+                }
+                crate::verif::on_step(
+                    self.ip,
+                    self.instructions.get(self.ip).copied().unwrap_or(255),
+                    self.stack.len(),
+                    self.frames.len(),
+                    self.bp as usize,
+                );
             }
 
             match self.next() {
@@ -387,6 +426,10 @@ impl VM {
                             "stapel overloop: te veel geneste functie aanroepen".to_string(),
                         ));
                     }
+                    #[cfg(feature = "verif")]
+                    if self.stack.len() < num_args as usize {
+                        return Err(Error::Fault("call-base-pointer"));
+                    }
                     let base_pointer = self.stack.len() as u16 - num_args as u16;
 
                     // Make room on the stack for any local variables defined inside this function
@@ -404,6 +447,10 @@ impl VM {
                         args.push(self.pop());
                     }
                     args.reverse();
+                    #[cfg(feature = "verif")]
+                    if builtin > Builtin::Length as u8 {
+                        return Err(Error::Fault("builtin-id"));
+                    }
                     let builtin = unsafe { std::mem::transmute::<u8, Builtin>(builtin) };
                     let result = builtins::call(builtin, &args, gc)?;
                     self.push(result);
@@ -469,6 +516,10 @@ impl VM {
                     self.push(value);
                 }
                 OpCode::Halt => {
+                    #[cfg(feature = "verif")]
+                    if let Some(site) = crate::verif::take_fault() {
+                        return Err(Error::Fault(site));
+                    }
                     gc.untrace(final_result);
                     return Ok(final_result);
                 }
